@@ -72,11 +72,60 @@ def _storage_attr(w: World) -> str:
     raise AnalysisError('Stack.__init__: storage attribute not recognised')
 
 
+def vm_used_methods(w: World, cls: str) -> set[str]:
+    """Methods of a VM class that something in the package calls: on a receiver typed as the class (annotation, or
+    assigned from its constructor / from run_script's result), or through `self` from another used method; dunder
+    methods count as used.  A method nobody calls (a convenience added for embedders) is not part of any run."""
+    cached = w.__dict__.setdefault('_used_methods', {})
+    if cls in cached:
+        return cached[cls]
+    meths = {fi.name for fi in w.repo.all_funcs(['classes']) if fi.cls == cls}
+    used = {m for m in meths if m.startswith('__')}
+    for fi in w.repo.all_funcs(['functions', 'parsing', 'tools', 'classes']):
+        if fi.cls == cls:
+            continue
+        typed = {p for p in fi.params if cls in str(fi.annotations.get(p, ''))}
+        for x in ast.walk(fi.node):
+            if isinstance(x, ast.Assign) and isinstance(x.value, ast.Call):
+                fn = dotted(x.value.func) or ''
+                for t in x.targets:
+                    if isinstance(t, ast.Name) and fn == cls:
+                        typed.add(t.id)
+                    if isinstance(t, ast.Tuple) and fn in ('run_script',):
+                        for k, el in enumerate(t.elts):
+                            if isinstance(el, ast.Name) and ((cls == 'Tape' and k == 0) or (cls == 'Stack' and k == 1)):
+                                typed.add(el.id)
+        for x in ast.walk(fi.node):
+            if isinstance(x, ast.Attribute) and x.attr in meths and isinstance(x.value, ast.Name) and x.value.id in typed:
+                used.add(x.attr)
+            # attribute chains like tape.definitions[h].reset_pointer(): any use of a method name of the class on a
+            # non-dict-like receiver that is not itself a known other type
+            if isinstance(x, ast.Attribute) and x.attr in meths and not isinstance(x.value, ast.Name) and \
+                    x.attr not in ('copy', 'clear', 'get', 'pop', 'items', 'keys', 'values', 'update', 'index', 'count'):
+                used.add(x.attr)
+    changed = True
+    while changed:
+        changed = False
+        for fi in w.repo.all_funcs(['classes']):
+            if fi.cls == cls and fi.name in used:
+                for x in ast.walk(fi.node):
+                    if isinstance(x, ast.Attribute) and isinstance(x.value, ast.Name) and x.value.id == 'self' and \
+                            x.attr in meths and x.attr not in used:
+                        used.add(x.attr)
+                        changed = True
+    cached[cls] = used
+    return used
+
+
 def _r1(w: World, rep: Report, storage: str):
     put = w.repo.func('classes', 'Stack.put')
     n_acc = 0
+    used_stack = vm_used_methods(w, 'Stack')
     for fi in w.repo.all_funcs():
         if fi.module.name == 'tools' and fi.qualname.startswith('repl'):
+            continue
+        if fi.cls == 'Stack' and fi.name not in used_stack:
+            rep.note(f'Stack.{fi.name} is called by nothing in the package: not part of any run, not examined')
             continue
         cfg = w.cfg(fi)
         counter = {}
@@ -382,7 +431,11 @@ def _r3(w: World, rep: Report):
     # R3b: who writes .pointer
     ret = w.handler_for('OP_RETURN')
     call = w.handler_for('OP_CALL')
+    used_tape = vm_used_methods(w, 'Tape')
     for fi in w.repo.all_funcs(['functions', 'classes', 'parsing', 'tools']):
+        if fi.cls == 'Tape' and fi.name not in used_tape:
+            rep.note(f'Tape.{fi.name} is called by nothing in the package: not part of any run, not examined')
+            continue
         cfg = w.cfg(fi)
         kinds = w.kinds(fi)
         own = fi.params[0] if fi.params else None
